@@ -4,6 +4,7 @@ import (
 	"fmt"
 	"go/token"
 	"go/types"
+	"sort"
 	"strings"
 
 	"golang.org/x/tools/go/ssa"
@@ -169,7 +170,7 @@ func runC14(c *engine.Ctx) {
 			c.Check(started, side.workerSym+">starts-watchdog", w.Pos(), 1, nil, "the session worker starts the heartbeat worker unconditionally (in its entry block)")
 		}
 	}
-	c.Floor(n, 8)
+	c.Floor(n, 4)
 
 	// ---- R2 liveness refreshed only by valid traffic ----
 	checkHeartbeatGate(c, "R2")
@@ -486,6 +487,52 @@ func runC14(c *engine.Ctx) {
 	// ---- R9 a refused or unanswered registration is retried after its timeout (shared with C19.R4) ----
 	c.Rule("R9", "every store of a phase constant to WorkingStatus.Phase happens on paths that restrict the current phase to the legal predecessors of that constant (a start error is retried after startErrTimeout, a lost answer after waitResponseTimeout)")
 	checkPhaseStores(c)
+
+	// ---- R12 every (re)connect dials the configured server address ----
+	c.Rule("R12", "the address the client connector dials is built from the configured ServerAddr and ServerPort only: it does not come out of package-level state (a resolver cache outlives the server's move to another address)")
+	{
+		saF := field(c, "pkg/config/v1", "ClientCommonConfig", "ServerAddr")
+		k := 0
+		for _, f := range c.P.RepoFuncs() {
+			if f.Pkg == nil || !strings.HasSuffix(f.Pkg.Pkg.Path(), "/client") {
+				continue
+			}
+			engine.ForEachInstr(f, func(in ssa.Instruction) {
+				call, ok := in.(*ssa.Call)
+				if !ok {
+					return
+				}
+				o := engine.CalleeObj(call)
+				if o == nil || o.Pkg() == nil {
+					return
+				}
+				isDial := (strings.HasSuffix(o.Pkg().Path(), "golib/net") && strings.HasPrefix(o.Name(), "Dial")) || (strings.HasSuffix(o.Pkg().Path(), "quic-go") && o.Name() == "DialAddr")
+				if !isDial {
+					return
+				}
+				for _, a := range engine.CallArgs(call) {
+					if b, isB := a.Type().Underlying().(*types.Basic); !isB || b.Kind() != types.String {
+						continue
+					}
+					src := engine.DeepSources(c.P, a)
+					if saF == nil || !src.HasField(saF) {
+						continue
+					}
+					k++
+					var globals []string
+					for g := range src.Globals {
+						if g.Pkg != nil && engine.IsRepoPkg(g.Pkg.Pkg.Path()) {
+							globals = append(globals, g.Name())
+						}
+					}
+					sort.Strings(globals)
+					c.Check(len(globals) == 0, c.P.FuncName(f)+">dial-address", in.Pos(), len(src.Values), globals,
+						"the dialled address derives from the configuration only (package-level state involved: %s)", strings.Join(globals, ", "))
+				}
+			})
+		}
+		c.Floor(k, 2)
+	}
 
 	// ---- R10 ----
 	checkOIDCSubjects(c, "R10")
